@@ -4,6 +4,7 @@ CONSTANTS
   MaxInputs = 6
   Alphabet = "full"
   EmitOpts = 99
+  EmitNames = {"a.c", "f.S"}
   EmitInputs = 99
   Devs = {"ArgcDesync", "OneCharName", "EmitQbeFile", "HeaderLinked"}
 INVARIANTS Inv_Refines Inv_Explained Inv_Emit
